@@ -12,6 +12,9 @@ def run(chk):
     from . import writertab
     writertab.compare(chk, "R02-writer", floor=48)
     writertab.compare_ifdata(chk, "R02-ifdata-writer", floor=22)
+    # which kind of token a character starts (and therefore where the token ends) is decided by the precedence of the scanner's branches
+    from . import c16, mir
+    c16.r16_dispatch(chk, mir.prog(), rule="R02-dispatch")
     chk.assumptions += ["not decided: token-sequence equality of output and input as such"]
 
 
